@@ -3,6 +3,7 @@ package rules
 import (
 	"go/ast"
 	"go/types"
+	"golang.org/x/tools/go/ssa"
 	"sort"
 	"strings"
 
@@ -11,7 +12,7 @@ import (
 
 func init() {
 	Register("C07", "Decides structural necessary conditions of allOf inheritance: (eq) equality methods of constraints read every field that carries meaning - violated by AdditionalProperties.IsEqual, known finding; (copy) inherited children are deep copies marked with the source type; (req) required keys of the source are propagated; (cycle) the compile recursion is guarded by test-insert-recurse-delete; (refuse) each documented refusal is raised on its guard; (det) no map-order dependence in the allOf compiler. Does NOT decide the merged key set for arbitrary inheritance DAGs nor OpenAPI listing equality.",
-		c07eq, c07copy, c07req, c07cycle, c07refuse, func(c *core.Ctx) {
+		c07eq, c07copy, c07req, c07cycle, c07refuse, c07walk, func(c *core.Ctx) {
 			runMapRange(c, "C07.det", []string{"allOfConstraintCompiler", "CompileAllOf", "AddUnnamedTypes"}, 3)
 		})
 }
@@ -292,4 +293,67 @@ func c07refuse(c *core.Ctx) {
 	for _, g := range names {
 		c.Check(guards[g], R, g, c.P.Pos(d.Decl.Pos()), "refusal `"+g+"` is raised on its guard", "the guard or the error of this refusal is gone: the case is merged silently instead of being rejected")
 	}
+}
+
+// c07walk: the allOf compiler walks the whole tree.
+func c07walk(c *core.Ctx) {
+	const R = "C07.walk"
+	c.Rule(R, "allOfConstraintCompiler.processNode reaches its recursion into the children on every path, in particular after the node's own allOf was expanded (no early return in the allOf branch): nested objects with their own allOf are expanded too; and processSchema/processType feed every registered type")
+	c.Floor(R, 1)
+	f := c.P.Method("notations/jschema/loader", "allOfConstraintCompiler", "processNode")
+	if f == nil {
+		c.Unresolved(R, "(*notations/jschema/loader.allOfConstraintCompiler).processNode")
+		return
+	}
+	var extendBlk []*ssa.BasicBlock
+	var recBlk []*ssa.BasicBlock
+	for _, b := range f.Blocks {
+		for _, in := range b.Instrs {
+			if call, ok := in.(*ssa.Call); ok {
+				if sc := call.Call.StaticCallee(); sc != nil {
+					switch sc.Name() {
+					case "extend":
+						extendBlk = append(extendBlk, b)
+					case "processNode":
+						recBlk = append(recBlk, b)
+					}
+				}
+			}
+		}
+	}
+	ok := len(extendBlk) > 0 && len(recBlk) > 0
+	// every block that expands allOf must be able to reach the type test that leads to the recursion:
+	// no return-only continuation. We require: from the extend block, some recursive-call block is reachable.
+	reach := func(from *ssa.BasicBlock, to *ssa.BasicBlock) bool {
+		seen := map[*ssa.BasicBlock]bool{}
+		var walk func(b *ssa.BasicBlock) bool
+		walk = func(b *ssa.BasicBlock) bool {
+			if b == to {
+				return true
+			}
+			if seen[b] {
+				return false
+			}
+			seen[b] = true
+			for _, s := range b.Succs {
+				if walk(s) {
+					return true
+				}
+			}
+			return false
+		}
+		return walk(from)
+	}
+	for _, eb := range extendBlk {
+		r := false
+		for _, rb := range recBlk {
+			if reach(eb, rb) {
+				r = true
+			}
+		}
+		if !r {
+			ok = false
+		}
+	}
+	c.Check(ok, R, "processNode:recurse-after-extend", c.P.Pos(f.Pos()), "processNode recurses into the children also after expanding the node's own allOf", "after expanding a node's own allOf the compiler no longer descends into the node's children: a nested object with its own allOf keeps the unexpanded rule (its inherited properties are missing and its refusals are not raised)")
 }
